@@ -104,6 +104,25 @@ Theorem C14_summary : forall (St U : Type) (sm : sem St U) (items : list item) (
 Proof. exact run_summary. Qed.
 Print Assumptions C14_summary.
 
+(* The oracle [log_ok] with which the check judges the implementation's Consume log accepts the log of
+   every run of the model on a plan satisfying the predicates, whatever the items do: a log it rejects
+   cannot be produced by the interpreter the theorems above are about.  [early] must be set when the run
+   was stopped between two commit steps (Hibernate/Boot error, panic). *)
+Theorem C14_oracle_accepts_model : forall (St U : Type) (ueqb : U -> U -> bool) (sm : sem St U)
+    (items : list item) (plan : list action) (nc : N),
+  (forall u, ueqb u u = true) ->
+  head_emergeb plan = true -> contigb plan = true -> distinctb plan = true -> liveb plan = true ->
+  forall early : bool,
+  (early = true \/ match ro_out (run St U sm items plan nc) with
+                   | Done _ _ => True
+                   | Failed (EConsume _ _) => True
+                   | Failed (EMissing _ _) => True
+                   | _ => False
+                   end) ->
+  log_ok U ueqb early plan items plan 0 (consume_log (ro_recs (run St U sm items plan nc))) = true.
+Proof. exact run_log_ok. Qed.
+Print Assumptions C14_oracle_accepts_model.
+
 (* ------------------------------------------------------------------------------------------ *)
 (* Non-vacuity: a real plan (history: two roots 0 and 1 merged by commit 2, hibernation distance 1,
    case 57 of the quick trace) in which the two replays of the merge commit are separated by a boot
